@@ -22,7 +22,6 @@ EVENTS = {   # name -> (constructor, arity pattern); the list two other workers 
 POPS = ('pool.pop.central', 'pool.pop.ring', 'pool.pop.steal', 'pool.drain.ring', 'pool.drain.steal')
 KEY_C03_RING = 'strand-after-shrink-racing-ring-fastpath'
 KEY_C03_CENTRAL = 'strand-central-after-resize0-racing-schedule'
-KEY_C08 = 'ring-drain-skips-decrement'
 KEY_C01_LATE = 'dtor-drain-task-reschedules'
 
 Z = dv.zlit
@@ -177,8 +176,12 @@ def line_of(c):
 
 # deterministic witnesses of the known findings (forced by explicit decision lists; replayed first on every run)
 WITNESSES = [
-    # C08: bulk 2 tasks to the rings of a parked 4-thread pool, resize(2) before any worker pops: the resize drains them with no decrement
+    # C08 regression (fixed by 8892b78): bulk 2 tasks to the rings of a parked 4-thread pool, resize(2) before any worker pops: the resize
+    # drains them; before the fix workRemaining_ stayed at 2 for the rest of the pool's life
     {'name': 'C08-ring-drain', 'n0': 4, 'budget': 800, 'progs': [['t2', 'r2', 'q', 's0', 'q']], 'sched': [0] * 200},
+    # C08 public effect (hook-free observation: which thread runs the body): 35 tasks pushed to rings and drained by 23 resizes, pool ends with
+    # 1 thread (poolLoadFactor_ = 32); a plain schedule() on the then idle pool must be queued, not run inline on the caller
+    {'name': 'C08-public-effect', 'n0': 2, 'budget': 9000, 'progs': [['t2', 'r1', 't1', 'r2'] * 11 + ['t2', 'r1', 'q', 's0', 'q']], 'sched': [0] * 1500},
     # C03: producer 0 has loaded ringCount = 4 in scheduleBulkToRings, producer 1 shrinks the pool to 2, producer 0 then pushes into rings 0..3
     {'name': 'C03-strand-ring', 'n0': 4, 'budget': 900, 'progs': [['t4'], ['r2']], 'sched': [0, 0] + [1] * 45 + [0] * 150},
     # C03 second candidate: producer 0 has read numThreads_ != 0 in forceEnqueue, producer 1 runs resize(0), producer 0 then enqueues centrally
